@@ -369,12 +369,14 @@ Proof.
     + destruct d as [a s|a tg raf vs].
       * apply shape_gen_inst; assumption.
       * destruct vs as [|v vs]; [intros H H'; inversion H; inversion H'; apply r_inst_none; constructor|].
-        intros H H'. apply bind_ok in H as (l & Hl & H). apply bind_ok in H' as (l' & Hl' & H'). inversion H; inversion H'.
+        intros H H'. apply bind_ok in H as (l & Hl & H). apply bind_ok in H' as (l' & Hl' & H').
         assert (Hall : Forall2 inst l l').
         { eapply omap_list_rel; [exact Hl | exact Hl' |]. intros x a0 a0' Hx.
           apply filter_incl_in in Hx. cbn [opt_def_ok] in Hopt. rewrite forallb_forall in Hbody, Hopt.
           apply variant_gen_inst; auto. }
-        split; cbn [fst snd]; repeat constructor; exact Hall.
+        inversion Hall as [|x0 y0 l0 l0' Hxy Hrest]; subst; inversion H; inversion H'; subst.
+        { apply r_inst_none; constructor. }
+        split; cbn [fst snd]; repeat constructor; assumption.
 Qed.
 End Def.
 
